@@ -26,7 +26,7 @@ def mk(eqm, hm):
 
 
 def run(chk, tier, seed):
-    n = 500 if tier == "quick" else 8000
+    n = 2000 if tier == "quick" else 8000
     r = vf.tlc("XrMap", "XrMap.cfg", "c17", simulate=n, depth=16, seed=seed, timeout=3000)
     cases = r.cases()
     if not cases or "Error:" in r.out:
